@@ -145,7 +145,23 @@ def run_unit(unit, tier):
             check_case(res, t, s, key=("H", unit[1], j), before=[s0])
         res.sample({"term": t0, "spec": s0})
     else:
-        from mc.props.c02 import trees, spec_of
+        from mc.props.c02 import trees, spec_of, LEAVES as L2
+        # and/or/xor lists of 0..5 entries == the left fold c1 op c2 op ... built with the Python operators
+        names = ["v1", "v2", "v3", "vn", "null", "k1"]
+        for op in ("and", "or", "xor"):
+            for n in range(0, 6):
+                for tup in (itertools.product(names, repeat=n) if n <= 3 else
+                            [tuple(names[(s + j * st) % len(names)] for j in range(n)) for s in range(len(names)) for st in (1, 2, 5)]):
+                    term = T.NULL
+                    for nm in tup:
+                        term = (op, term, L2[nm]) if term != T.NULL else L2[nm]
+                    # null operands are dropped by the fold: build the expected term without them
+                    term = T.NULL
+                    for nm in tup:
+                        if nm == "null":
+                            continue
+                        term = L2[nm] if term == T.NULL else (op, term, L2[nm])
+                    check_case(res, term, {op: [spec_of(L2[nm]) for nm in tup]}, key=("N", op, tup))
         for i, t in enumerate(trees(2)):
             kinds = T.cond_kinds(t)
             if "key" in kinds and "index" in kinds:
